@@ -9,3 +9,4 @@ for seed in "$@"; do
     [ $rc -ne 0 ] && echo "$out" | grep -E 'VIOLATION|INCONCLUSIVE' | cut -c1-600
   done
 done
+exit 0
